@@ -735,8 +735,8 @@ def _run_csv(case):
             elif isinstance(fd, IrregularFunctionalData):
                 out["cls"] = "irregular"
                 out["rows"] = [[[float(x), float(y)] for x, y in zip(fd.argvals[i]["input_dim_0"], fd.values[i])]
-                               for i in sorted(fd.argvals.keys())]
-                out["labels"] = sorted(int(i) for i in fd.argvals.keys())
+                               for i in fd.argvals.keys()]  # observations in the order the object lists them (= file order)
+                out["labels"] = [int(i) if isinstance(i, (int, np.integer)) else str(i) for i in fd.argvals.keys()]
             else:
                 out["cls"] = type(fd).__name__
         except Exception as e:
@@ -1299,9 +1299,10 @@ def _oracle_csv(case, impl):
     else:
         want = [[[absc[j], float(F(c))] for j, c in enumerate(r) if c != "n"] for r in cells]
         if impl["rows"] != want:
-            vs.append(dict(clause="read_csv", entry=entry, msg=f"irregular rows {impl['rows']} expected {want}"))
+            vs.append(dict(clause="read_csv", entry=entry, msg=f"irregular rows {impl['rows']} expected {want}; read with {impl.get('kwargs')}"))
         if impl["labels"] != list(range(len(cells))):
-            vs.append(dict(clause="read_csv", entry=entry, msg=f"observation labels {impl['labels']}"))
+            vs.append(dict(clause="read_csv", entry=entry,
+                           msg=f"{len(cells)} table rows but observations labelled {impl['labels']} (every row is one observation, numbered in file order); read with {impl.get('kwargs')}"))
     return vs
 
 
